@@ -33,7 +33,7 @@ THEOREMS = [T + t for t in (
     "cache_ops_locked_counterexample", "lock_order_acyclic", "lock_order_as_found_cyclic")]
 
 WRAP = ("-Wl,--wrap=_kdumpfile_priv_cache_get_entry,--wrap=_kdumpfile_priv_cache_insert,"
-        "--wrap=_kdumpfile_priv_cache_discard,--wrap=_kdumpfile_priv_cache_put_entry,--wrap=malloc")
+        "--wrap=_kdumpfile_priv_cache_discard,--wrap=_kdumpfile_priv_cache_put_entry,--wrap=malloc,--wrap=realloc")
 PS = 4096
 MACHPHYS = 1
 MODEL_EDGES = {("S", "C"), ("C", "M"), ("S", "M")}      # lean/Kdf/Model/Conc.lean lockOrder (0=S 1=C 2=M)
@@ -42,14 +42,18 @@ MMAP_NEVER, MMAP_TRY = 0, 2
 
 # ----------------------------------------------------------------------------- dumps
 class Dump:
-    def __init__(self, path, kind, pages, absent, straddle=None):
-        self.path, self.kind, self.pages, self.absent, self.straddle = path, kind, pages, absent, straddle
+    def __init__(self, path, kind, pages, absent, straddle=None, nuls=()):
+        self.path, self.kind, self.pages, self.absent, self.straddle, self.nuls = path, kind, pages, absent, straddle, nuls
         self._h = {}
 
     def expect(self, pfn):
         if pfn not in self._h:
-            self._h[pfn] = "%016x" % dumpgen.fnv(dumpgen.page_bytes(pfn, PS))
+            self._h[pfn] = "%016x" % dumpgen.fnv(dumpgen.page_bytes(pfn, PS, self.nuls))
         return self._h[pfn]
+
+    def expect_str(self, addr):
+        b = dumpgen.page_bytes(addr // PS, PS, self.nuls)[addr % PS:]
+        return "%016x" % dumpgen.fnv(b[:b.index(0)])
 
 
 def make_dumps(R, big=False):
@@ -57,8 +61,9 @@ def make_dumps(R, big=False):
     n = 40
     pages = [p for p in range(n) if p % 13 != 5]
     path = R.path("dd-zlib.dump")
-    dumpgen.write_diskdump(path, pages, methods={p: "zlib" for p in pages})
-    d["dd"] = Dump(path, "dd", pages, [p for p in range(n) if p not in pages])
+    nuls = [p * PS + 200 for p in pages]            # every page holds a string that ends at offset 200
+    dumpgen.write_diskdump(path, pages, methods={p: "zlib" for p in pages}, nuls=nuls)
+    d["dd"] = Dump(path, "dd", pages, [p for p in range(n) if p not in pages], nuls=nuls)
     # ELF: two page-aligned segments (direct file-cache path) and one page stored as two LOADs
     # (elf_read_page slow path through the page cache)
     segs = [dict(pfn=0, npages=12), dict(pfn=16, npages=10),
@@ -395,6 +400,19 @@ def scenarios(R, dumps, tier):
                     ops.append((t, "clone %d" % ((variant + i) % 2)))
         out.append(("clone", dd, dict(mode="ctl", nthreads=n, cache=n, ops=ops, perctx=1,
                                       seed=rng.randrange(1 << 30), pct=(rng.randrange(3), 120)), set()))
+    # S7: a string is being copied out of a page (kdump_read_string parked at its realloc) while the other threads
+    # read enough other pages to recycle every unpinned entry
+    for variant in range(10 if tier == "quick" else 60):
+        n = rng.choice((2, 2, 3))
+        cap = n
+        pg = rng.sample(P, 2 * n + 3)
+        ops = [(0, "str %d %d %s" % (MACHPHYS, pg[0] * PS + 10 * variant, dd.expect_str(pg[0] * PS + 10 * variant)))]
+        for t in range(1, n):
+            ops += [(t, rd(dd, p)) for p in pg[1 + 3 * (t - 1):4 + 3 * (t - 1)]]
+        ops.append((0, rd(dd, pg[0])))
+        script = [(0, "realloc")] + [(t, "done") for t in range(1, n)]
+        out.append(("string-copy", dd, dict(mode="ctl", nthreads=n, cache=cap, ops=ops, script=script,
+                                            seed=rng.randrange(1 << 30), pct=(rng.randrange(2), 120)), set()))
     rng.shuffle(out)
     return out
 
